@@ -151,7 +151,8 @@ func c23Exec(b MapBroker, op c23Op, ep *c23Epochs) (res c23Res) {
 		for page := 0; page < 50; page++ {
 			r, err := b.ReadState(ctx, op.Ch, MapReadStateOptions{Revision: pos, Cursor: cursor, Limit: op.Limit, Key: op.Key, Asc: op.Asc})
 			if err == ErrorUnrecoverablePosition {
-				return c23Res{Kind: "unrec"}
+				// the position that comes with the error is only used to learn the epoch token (a read can create the epoch)
+				return c23Res{Kind: "unrec", Epoch: r.Position.Epoch}
 			}
 			if err != nil {
 				return c23Res{Kind: "err", Err: err.Error()}
@@ -175,7 +176,7 @@ func c23Exec(b MapBroker, op c23Op, ep *c23Epochs) (res c23Res) {
 	case "stream":
 		r, err := b.ReadStream(ctx, op.Ch, MapReadStreamOptions{Filter: StreamFilter{Since: pos, Limit: op.Limit, Reverse: op.Reverse}})
 		if err == ErrorUnrecoverablePosition {
-			return c23Res{Kind: "unrec"}
+			return c23Res{Kind: "unrec", Epoch: r.Position.Epoch}
 		}
 		if err != nil {
 			return c23Res{Kind: "err", Err: err.Error()}
